@@ -30,7 +30,7 @@ ARG_SHAPES = [
     ("bool", BOOL(True)), ("bool", BOOL(False)), ("bool", V("b")),
     ("str", S("s")), ("str", S("with space")), ("str", V("s")),
     # strings that look like other literals / names
-    ("str", S("caf\u00e9 \u03c0/2")), ("str", S("a\\b\\n")), ("str", S("a#b")), ("str", S("True")), ("str", S("1.5")), ("str", S("n")), ("str", S("x=1, y")), ("str", S("two  blanks,    four, tab\tinside")), ("str", S("a\x0bb\x0cc\x1dd\x85e\u2028f\u2029g")),
+    ("str", S("caf\u00e9 \u03c0/2")), ("str", S("a\\b\\n")), ("str", S("a#b")), ("str", S("True")), ("str", S("1.5")), ("str", S("n")), ("str", S("x=1, y")), ("str", S("1,2;a,b")), ("str", S("two  blanks,    four, tab\tinside")), ("str", S("a\x0bb\x0cc\x1dd\x85e\u2028f\u2029g")),
     ("array", V("A")), ("array", V("B")), ("array", V("U")), ("array-1x1", V("W")), ("array-1x1", IDX("W", N("0"))), ("array-p-name", V("p1")), ("array-p-name", IDX("p1", N("1"))), ("array-with-parameters", V("T")), ("array-with-parameters", IDX("T", N("3"))),
     ("param", P("a")), ("param", U("-", P("a"))), ("param", B("*", N("2"), P("a"))), ("param", B("+", P("a"), P("b"))),
     ("param", B("**", P("a"), N("2"))), ("param", B("/", N("1"), P("a"))), ("param", B("/", P("a"), P("b"))),
@@ -53,6 +53,7 @@ ARG_SHAPES = [
 KW_LISTS = [
     L(N("1"), N("2")), L(N("0.5"), U("-", N("1"))), L(BOOL(True), BOOL(False)), L(S("a"), S("b")), L(N("1+2j")),
     L(V("n"), V("x")), L(), L(U("-", N("1"))),
+    L(N("1-2j"), N("0.5j"), N("-3-0.25j"), N("2+0j")),      # complex numbers of every sign pattern inside a list
     L(S("caf\u00e9 \u03c0"), S("a\\b\\n"), S("tab\there"), S("a#b")),       # strings with non-ASCII, backslash, tab and comment characters inside a list
 ]
 KW_LISTS_T = [L(P("a"), N("1")), L(Q(0))]
@@ -73,6 +74,7 @@ METAS = [
     dict(name="m7", version="1.0", target=("x.y_1", [], []), type=("other", [], [("k", U("-", N("1.5")))])),
     dict(name="m7s", version="1.0", target=("g", [], [("s", S("caf\u00e9 \\n")), ("l", L(S("a\\b"), S("tab\there")))]), type=("t", [], [("w", S("C:\\x")), ("z", N("0")), ("f", BOOL(False)), ("e", S(""))])),
     dict(name="m8", version="1.0", target=("g", [], [("a", L(N("1"), N("2"))), ("b", L(N("3"))), ("c", L(S("x"), BOOL(False)))]), type=("t", [], [("d", L(N("0.5"))), ("e", L(N("1"), N("2")))])),
+    dict(name="m4n", version="1.0", target=("g", [], [("c", N("1-2j")), ("d", N("-0.5-0.25j")), ("z", N("0")), ("f", BOOL(False)), ("e", S("")), ("x", N("0.0"))]), type=("t", [], [("l", L(N("-1-2j"), N("0.5j"))), ("n", N("0"))])),
     # the remaining cells of the {absent, name only, with options} x {absent, name only, with options} grid for target x type
     dict(name="m9", version="1.0", target=("g", [], [("shots", N("10")), ("s", S("a"))]), type=("sampling", None, [])),
     dict(name="m10", version="1.0", target=("g", None, []), type=("t", [], [("k", N("2"))])),
